@@ -193,6 +193,52 @@ func RunECDSA(raw json.RawMessage, seed int64) (res Result) {
 		if new(big.Int).Add(cur.N, r0).BitLen() > 256 {
 			cand = enc(new(big.Int).Add(cur.N, big.NewInt(1)), s0)
 		}
+		// r + n only fits in 32 bytes when r is tiny: take a nonce point R with a tiny abscissa, any s, and RECOVER the public key
+		// Q = r^-1 (s R - e G) under which (r, s) is a valid signature of this message; then (r + n, s) must not be
+		if signRef != nil {
+			e0 := e(signRef(msg))
+			for x := int64(1 + rng.Intn(50)); x < 400; x++ {
+				y, ok := cur.YFor(big.NewInt(x))
+				if !ok {
+					continue
+				}
+				if rng.Intn(2) == 1 {
+					y = new(big.Int).Sub(cur.P, y)
+				}
+				R := ref.Pt{X: big.NewInt(x), Y: y}
+				rr := big.NewInt(x)
+				sb := make([]byte, 40)
+				rng.Read(sb)
+				ss := new(big.Int).Mod(new(big.Int).SetBytes(sb), new(big.Int).Sub(cur.N, big.NewInt(1)))
+				ss.Add(ss, big.NewInt(1))
+				Q := cur.Mul(cur.Add(cur.Mul(R, ss), cur.Neg(cur.Mul(cur.G(), e0))), new(big.Int).ModInverse(rr, cur.N))
+				if Q.Inf || !cur.OnCurve(Q) {
+					continue
+				}
+				if !cur.ECDSAVerify(Q, e0, rr, ss) {
+					add("HarnessConstruction", "crafted tiny-r signature fails the reference equation")
+					break
+				}
+				qb := make([]byte, 64)
+				Q.X.FillBytes(qb[:32])
+				Q.Y.FillBytes(qb[32:])
+				qpk, err := crypto.DecodePublicKey(algo, qb)
+				if err != nil {
+					add("DecodePublicKey", fmt.Sprintf("recovered public key %x refused: %v", qb, err))
+					break
+				}
+				if ok, err := qpk.Verify(enc(rr, ss), msg, signH); !ok || err != nil {
+					add("VerifyExact", fmt.Sprintf("the valid signature (r=%v, s) is rejected under the recovered key (%v, %v)", rr, ok, err))
+				}
+				res.Evals++
+				vpk, vpub = qpk, Q
+				cand = enc(new(big.Int).Add(rr, cur.N), ss)
+				if rng.Intn(3) == 0 { // both scalars congruent but out of range needs a tiny s as well: not reachable together; r alone
+					cand = enc(new(big.Int).Add(rr, cur.N), new(big.Int).Sub(cur.N, ss))
+				}
+				break
+			}
+		}
 	case "s=n+1":
 		// s + n only fits in 32 bytes when s is tiny: craft a key for which a tiny s is a valid signature of this message:
 		// pick k, r = (kG).x mod n, s small, d = (s*k - e) / r mod n; then (r, s) verifies under d and (r, s + n) must not
